@@ -44,6 +44,7 @@ class Site:
 
 
 def analyse(fn, facts, E, is_prim_call, keys_by_sig):
+    fn = ir.normal_path(fn)         # byte counts are what a call that returns reports
     """Returns (sites, returns, accs): per emitter call its use classification; per return its verdict."""
     def is_emitter_call(c):
         if c.get("k") not in ("Call", "MCall"):
